@@ -76,9 +76,15 @@ Theorem C12_intrinsic_placement_total : forall k sig p b t,
   exists args, into_vec gen_codec p b t = Ok args.
 Proof. exact (fun k sig p b t => into_vec_total gen_codec k sig p b t (or_introl gen_place_with_padding)). Qed.
 
-(* (5) a defect found by the correspondence, still open: nulless + furibug *)
-Theorem C12_nulless_furibug_refuted : cd_nulless_furibug_rejected gen_codec = false -> nullessfuri_witness.
-Proof. exact nullessfuri_refuted. Qed.
+(* (5) the signatures covered by (1) and (2) are all the signatures a mapfile can declare: whatever the signature
+       parser accepts (block sizes are unsigned numbers; bs=0 and nulless+furibug are rejected, validate() holds)
+       satisfies [sig_ok], given at most as many parameters as the mask has bits and registers only in
+       languages without timeline arg0 *)
+Theorem C12_parsed_signature_is_covered : forall lang_arg0 ps sig has_regs,
+  abi_of_params gen_codec lang_arg0 ps = Some sig -> params_nonneg ps = true ->
+  nparams sig <= cd_mask_bits gen_codec -> (lang_arg0 = true -> has_regs = false) ->
+  sig_ok gen_codec has_regs sig = true.
+Proof. exact parsed_sig_ok. Qed.
 
 (* non-vacuity: the hypotheses of (1) are satisfiable by a non-trivial instance *)
 Example C12_decode_encode_instance :
